@@ -143,7 +143,7 @@ func runWeb(c *harness.Ctx) harness.Result {
 	}
 	defer web.Close()
 	defer driver.SetVariableDefault("nodecount", "-1")
-	urls := []string{"/top", "/top?g=lines", "/peek?f=main", "/flamegraph", "/source?f=a", "/download", "/top?f=main&sort=cum", "/", "/flamegraph?g=files", "/disasm?f=a"}
+	urls := []string{"/top", "/top?g=lines", "/peek?f=main", "/flamegraph", "/source?f=a", "/download", "/top?f=main&sort=cum", "/", "/flamegraph?g=files", "/disasm?f=a", "/top?f=zzznomatch", "/?i=zzznomatch&h=qqq", "/peek?f=zzznomatch"}
 	// sequential twins, for each of the two option values that writers will set
 	expect := map[string]map[string]bool{}
 	for _, nc := range []string{"-1", "3"} {
